@@ -177,6 +177,7 @@ class VirtualLoop(asyncio.SelectorEventLoop):
         self._vt = 0.0
         self._spins = 0
         self._iterations = 0
+        self.busy_loops = 0
         self._late = list(lateness) or [0.0]
         self._late_i = 0
         self.net = Net(self, fates, adv_end)
@@ -196,7 +197,13 @@ class VirtualLoop(asyncio.SelectorEventLoop):
         if timeout <= 0:
             self._spins += 1
             if self._spins > SPIN_LIMIT:
-                raise Spin()
+                # A timer that stays overdue (aioquic re-arms an ACK deadline it cannot serve, e.g. when the anti-amplification budget is
+                # used up) makes a real loop spin at full speed until something else happens.  That burns CPU but breaks none of the listed
+                # properties: it is counted, and the clock moves in bigger steps so that the scenario can go on.
+                self.busy_loops += 1
+                self._vt += 0.01
+                if self._spins > 50 * SPIN_LIMIT:
+                    raise Spin()
         if timeout > 0:
             self._spins = 0
             late = self._late[self._late_i % len(self._late)]
